@@ -113,7 +113,8 @@ EXPLANATION = (
     'iconv_loop_schedule; under the assumed POSIX contract: iconv_loop_terminates, iconv_loop_rounds_log, iconv_loop_buffer_bound, '
     'iconv_loop_returns_produced, iconv_loop_error_span (+ the encode versions); non_doubling_loop_diverges; iconv_wchar_out_of_range. '
     'End to end (the loop composed with a reference iconv for the charset): euctw_codec_decode, euctw_codec_encode, euctw_codec_roundtrip, '
-    'koi8t_codec. loader_decode_total. unrepresentable_iff, check_unrepresentable_iff, check_classification, check_total. '
+    'koi8t_codec. loader_decode_total. unrepresentable_iff, check_unrepresentable_iff, check_classification, check_total, '
+    'extra_codecs_encode_ok (EncodeOk is a theorem for the charmap codecs and EUC-TW). '
     'TEST-LEVEL ONLY (named): that glibc behaves like the reference iconv (stream charset-reficonv: every conversion call of the run, return '
     'code / input consumed / bytes written, compared with the model; the loop-real stream replays the recorded calls through the model of the '
     'loop); that glibc segments a byte string into units as eucTwUnit does (streams charset-euctw and charset-euctw-real, the latter over the '
